@@ -241,6 +241,7 @@ def build(S):
         S.guarded('save_lmpdat[%s]' % style, lambda style=style: check_style(style))
     prove_decode(S)
     prove_reader(S)
+    prove_cell_is_orthorhombic(S)
     S.clause('header counts, type counts, box and tilt lines, section order', 'PROVED on the writer (record level)')
     S.clause('per-item records (ids, types, atoms, coordinates, charge, molecule) written by save_lmpdat', 'PROVED (record level)')
     S.clause('reading the records back reproduces type ids, groups, charges, positions, terms with types (decode o encode = id)', 'PROVED (decoding statements of load_lmpdat; text <-> number bridge assumed)')
@@ -538,4 +539,75 @@ def _reader(S):
         S.add_canary(I, "%s/canary#%d" % (tag, pi), [h for h in p.pc if not z3.is_quantifier(h)])
     if nret == 0:
         raise OutOfSubset("the body of the line loop has no normal path")
+    S.add_interp_obligations(I)
+
+
+# ------------------------------------------------------------------------------------------------
+# Atoms.cell_is_orthorhombic: decides whether the tilt line is written (C13) and whether --mic replicates (C20)
+def prove_cell_is_orthorhombic(S):
+    S.function(REL, 'Atoms.cell_is_orthorhombic')
+    S.guarded('cell_is_orthorhombic', lambda: _cell_is_orthorhombic(S))
+
+
+def _cell_is_orthorhombic(S):
+    from pyvc.models_lin import sym_mat3
+    I = S.interp()
+    models_py.install(I)
+    models_np.install(I)
+    models_lin.install(I)
+    mod = I.module(REL)
+    clo = I.closure_for(REL, 'Atoms.cell_is_orthorhombic')
+    from pyvc.models_lin import MatVal
+    # numpy on 3x3 values, as far as this one-liner needs it: identity, row-vector * matrix (broadcast over rows), element-wise ==, .all()
+    I.models['numpy.identity'] = lambda ctx, args, kwargs: MatVal([RowVal([1 if i == j else 0 for j in range(args[0])]) for i in range(args[0])]) if args == [3] or tuple(args) == (3,) else (_ for _ in ()).throw(OutOfSubset("np.identity(%r)" % (args,)))
+    is_m = lambda v: isinstance(v, list) and len(v) == 3 and all(isinstance(r, (RowVal, list, tuple)) and len(r) == 3 for r in v)
+    is_v = lambda v: isinstance(v, (RowVal, list, tuple)) and len(v) == 3 and not is_m(v)
+
+    def mat_binop(ctx, op, a, b):
+        if is_v(a) and is_m(b):
+            a = [a, a, a]
+        elif is_m(a) and is_v(b):
+            b = [b, b, b]
+        if not (is_m(a) and is_m(b)):
+            raise OutOfSubset("matrix arithmetic on %r and %r" % (type(a).__name__, type(b).__name__))
+        return MatVal([RowVal([I.lib.binop(ctx, op, a[i][j], b[i][j]) for j in range(3)]) for i in range(3)])
+    I.models['matval.binop'] = mat_binop
+    orig_compare = I.lib.compare
+
+    class BoolMat(list):
+        pass
+
+    def compare(ctx, op, x, y):
+        if is_m(x) and is_m(y) and op in ('Eq', 'NotEq'):
+            return BoolMat([[orig_compare(ctx, op, x[i][j], y[i][j]) for j in range(3)] for i in range(3)])
+        return orig_compare(ctx, op, x, y)
+    I.lib.compare = compare
+
+    def m_all(ctx, recv, args, kwargs, f):
+        if isinstance(recv, BoolMat):
+            from pyvc.values import truthy, zbool
+            return Sym(z3.And(*[zbool(truthy(v)) for r in recv for v in r]))
+        return NotImplemented
+    I.models['method.all'] = m_all
+
+    def m_any(ctx, recv, args, kwargs, f):
+        if isinstance(recv, BoolMat):
+            from pyvc.values import truthy, zbool
+            return Sym(z3.Or(*[zbool(truthy(v)) for r in recv for v in r]))
+        return NotImplemented
+    I.models['method.any'] = m_any
+
+    def thunk():
+        C = sym_mat3('cell')
+        me = I.state.alloc('Atoms', {'__class__': 'Atoms', '__module__': mod, 'cell': C})
+        return I.call_closure(clo, [me], {}), C
+    paths = I.explore(thunk)
+    for i, p in enumerate(paths):
+        if p.outcome != 'return':
+            raise OutOfSubset("cell_is_orthorhombic raises")
+        r, C = p.value
+        off = z3.And(*[to_z3(C[a][b], sort=REAL) == 0 for a in range(3) for b in range(3) if a != b])
+        rz = r if isinstance(r, bool) else to_z3(r)
+        S.add(I, "cell_is_orthorhombic/true-exactly-when-every-off-diagonal-entry-is-zero#%d" % i, p.pc, (z3.BoolVal(rz) if isinstance(rz, bool) else rz) == off,
+              clause='tilt line exactly for non-orthorhombic cells')
     S.add_interp_obligations(I)
